@@ -22,6 +22,10 @@ pub const URGP: u16 = 0x0BAD;
 pub const ICMP_ID: u16 = 0x4242;
 pub const ICMP_SEQ: u16 = 0x0717;
 
+fn b2i(b: bool) -> i64 {
+    if b { 1 } else { 0 }
+}
+
 fn ext_raw(len: usize, fill: u8) -> Ipv6RawExtHeader {
     Ipv6RawExtHeader::new_raw(IpNumber(0), &vec![fill; len - 2]).unwrap()
 }
@@ -201,10 +205,48 @@ macro_rules! sinks {
         let vres = { let $b2 = $mk; let $v = &mut vecout; $vec };
         let mut sbuf = vec![0xC7u8; $size + 6];
         let sres = { let $b3 = $mk; let $s = &mut sbuf[..$size + 2]; $slice };
-        let mut short = vec![0xC7u8; $size + 4];
-        let n_short = if $size > 0 { $size - 1 } else { 0 };
-        let shres = { let $b3 = $mk; let $s = &mut short[..n_short]; $slice };
-        (out, wres, vecout, vres, sbuf, sres, short, shres, n_short)
+        // slices that are too short: every "interesting" length (0, 1, inside each part, one byte short)
+        let mut shorts: Vec<Value> = vec![];
+        let mut lens: Vec<usize> = vec![0, 1, 13, 14, 15, 17, 18, 19, 21, 33, 34, 35, 41, 53, 54, 55, $size / 2, $size.saturating_sub(9), $size.saturating_sub(2), $size.saturating_sub(1)];
+        lens.retain(|n| *n < $size);
+        lens.sort();
+        lens.dedup();
+        for n_short in lens {
+            let mut short = vec![0xC7u8; n_short + 4];
+            let shres = { let $b3 = $mk; let $s = &mut short[..n_short]; $slice };
+            let canary = short[n_short..].iter().all(|x| *x == 0xC7);
+            // whatever was written is a prefix of the complete encoding (or untouched)
+            let prefix = (0..n_short).all(|i| short[i] == 0xC7 || (i < out.len() && short[i] == out[i]));
+            shorts.push(match &shres {
+                Ok(n) => json!([n_short, "ok", *n as i64, b2i(canary), b2i(prefix)]),
+                Err(e) => {
+                    let j = serr(e);
+                    json!([n_short, j["k"], j["actual"], b2i(canary), b2i(prefix)])
+                }
+            });
+        }
+        // io::Write sink that fails after k bytes: every k for small packets, a spread for large ones
+        let mut faults: Vec<Value> = vec![];
+        if wres.is_ok() {
+            let mut ks: Vec<usize> = if $size <= 160 { (0..$size).collect() } else {
+                let mut v: Vec<usize> = (0..100).collect();
+                v.extend([$size / 2, $size - 9, $size - 2, $size - 1]);
+                v
+            };
+            ks.retain(|k| *k < $size);
+            ks.sort();
+            ks.dedup();
+            for k in ks {
+                let mut fw = crate::io::FailWriter { got: vec![], cap: k };
+                let fres = { let $b = $mk; let $w = &mut fw; $write };
+                let prefix = fw.got.len() <= k && fw.got[..] == out[..fw.got.len()];
+                faults.push(match &fres {
+                    Ok(()) => json!([k, "ok", fw.got.len(), b2i(prefix)]),
+                    Err(e) => json!([k, werr(e)["k"], fw.got.len(), b2i(prefix)]),
+                });
+            }
+        }
+        (out, wres, vecout, vres, sbuf, sres, shorts, faults)
     }};
 }
 
@@ -220,7 +262,7 @@ pub fn run_case(id: &str, cfg: &Value) -> Value {
             Final::Raw(b, _) => b.size(plen),
             Final::Arp(b) => b.size(),
         };
-        let (out, wres, vecout, vres, sbuf, sres, short, shres, n_short) = match build(cfg) {
+        let (out, wres, vecout, vres, sbuf, sres, shorts, faults) = match build(cfg) {
             Final::Udp(_) => sinks!(match build(cfg) { Final::Udp(b) => b, _ => unreachable!() }, payload, size, |b, w| b.write(w, &payload), |b, v| b.write_to_vec(v, &payload), |b, s| b.write_to_slice(s, &payload)),
             Final::Tcp(_) => sinks!(match build(cfg) { Final::Tcp(b) => b, _ => unreachable!() }, payload, size, |b, w| b.write(w, &payload), |b, v| b.write_to_vec(v, &payload), |b, s| b.write_to_slice(s, &payload)),
             Final::Icmp4(_) => sinks!(match build(cfg) { Final::Icmp4(b) => b, _ => unreachable!() }, payload, size, |b, w| b.write(w, &payload), |b, v| b.write_to_vec(v, &payload), |b, s| b.write_to_slice(s, &payload)),
@@ -242,17 +284,10 @@ pub fn run_case(id: &str, cfg: &Value) -> Value {
             Ok(n) => json!({"k": "ok", "ret": n, "same": if *n <= sbuf.len() && sbuf[..*n] == out[..] { 1 } else { 0 }, "canary": if sbuf[size + 2..].iter().all(|x| *x == 0xC7) { 1 } else { 0 }}),
             Err(e) => json!({"k": serr(e)["k"], "ret": -1, "same": -1, "canary": if sbuf[size + 2..].iter().all(|x| *x == 0xC7) { 1 } else { 0 }}),
         };
-        let short_v = match &shres {
-            Ok(n) => json!({"k": "ok", "req": n, "len": n_short, "canary": 1}),
-            Err(e) => {
-                let j = serr(e);
-                json!({"k": j["k"], "req": j["actual"], "len": j["max"], "canary": if short[n_short..].iter().all(|x| *x == 0xC7) { 1 } else { 0 }})
-            }
-        };
         json!({"ev": "build", "id": id, "cfg": cfg, "plen": plen, "size": size, "big": if big { 1 } else { 0 },
                "bytes": if big { out[..hdr_len.min(out.len()).min(400)].to_vec() } else { out.clone() }, "total": out.len(),
                "payload": if big { vec![] } else { payload.clone() },
-               "write": write, "vec": vec_v, "slice": slice_v, "short": short_v, "n_short": n_short})
+               "write": write, "vec": vec_v, "slice": slice_v, "shorts": shorts, "faults": faults})
     }));
     r.unwrap_or_else(|_| json!({"ev": "panic", "id": id, "cfg": cfg}))
 }
